@@ -110,8 +110,29 @@ def mk_bin(op, l, r):
     if op == "*" and r[0] == "list":
         return ("rep", r, l)
     if op in COMMUT:
-        l, r = sorted((l, r), key=skey)
+        # associative + commutative: flatten, fold constants, sort, rebuild left-nested
+        ops = []
+        for x in (l, r):
+            ops.extend(_flat(op, x))
+        consts = [x for x in ops if is_const(x) and isinstance(x[1], int) and not isinstance(x[1], bool)]
+        rest = [x for x in ops if x not in consts]
+        if len(consts) > 1:
+            acc = consts[0][1]
+            for c in consts[1:]:
+                acc = {"|": acc | c[1], "&": acc & c[1], "^": acc ^ c[1]}[op]
+            consts = [("c", acc)]
+        ops = sorted(consts + rest, key=skey)
+        out = ops[0]
+        for x in ops[1:]:
+            out = ("bin", op, out, x)
+        return out
     return ("bin", op, l, r)
+
+
+def _flat(op, x):
+    if x[0] == "bin" and x[1] == op:
+        return _flat(op, x[2]) + _flat(op, x[3])
+    return [x]
 
 
 def mk_bool(op, items):
